@@ -110,3 +110,65 @@ Fixpoint lspec_run (l : list nat) (ops : list bl_op) : list bl_obs :=
   | [] => []
   | op :: r => let '(l', o) := lspec_step l op in o :: lspec_run l' r
   end.
+
+(* ---- drained big histories, judged without replaying them -------------------- *)
+(* Queues of tens of thousands of entries cannot be replayed through [spec_run]
+   inside Coq (unary task tokens, quadratic).  For histories of one fixed shape
+     add task i with rank [f i] for i = 0 .. n-1;  re-add every i with
+     i mod q = 1 (ascending) with rank [g i];  remove every i with i mod r = 2;
+     len;  pop until IndexError;  pop(default), peek(default), len
+   the property is stated as a checker over what the drain returned: exactly the
+   live tasks, each served before the next one (higher rank, or equal rank and
+   earlier (re-)insertion).  This checker is a second, direct statement of the
+   property for that one shape of history (trusted as such; a proof that an
+   accepted observation is exactly what [spec_run] returns is the next step).    *)
+Local Open Scope N_scope.
+
+Inductive big_rank :=
+| RDesc (k : N)          (* - (i / k): never increasing; every insort lands at len() *)
+| RAsc (k : N)           (* i / k: never decreasing *)
+| RMod (m a : N).        (* (i * a) mod m: pseudo-random levels *)
+
+Definition rank_of (f : big_rank) (i : N) : Z :=
+  match f with
+  | RDesc k => (- Z.of_N (i / k))%Z
+  | RAsc k => Z.of_N (i / k)
+  | RMod m a => Z.of_N ((i * a) mod m)
+  end.
+
+Record big_params := mkBig { bn : N; bf : big_rank; bq : N; bg : big_rank; br : N }.
+
+Record big_obs := mkBigObs {
+  o_len : N;             (* len(q) before draining *)
+  o_pops : list N;       (* tasks returned by pop() until it raised IndexError *)
+  o_end : bool           (* afterwards pop(default) and peek(default) returned the default and len is 0 *)
+}.
+
+Definition readded (p : big_params) (i : N) : bool := negb (bq p =? 0) && (i mod bq p =? 1).
+Definition removed (p : big_params) (i : N) : bool := negb (br p =? 0) && (i mod br p =? 2).
+Definition final_rank (p : big_params) (i : N) : Z :=
+  if readded p i then rank_of (bg p) i else rank_of (bf p) i.
+Definition final_seq (p : big_params) (i : N) : N := if readded p i then bn p + i else i.
+
+(* a is served before b *)
+Definition before (p : big_params) (a b : N) : bool :=
+  (final_rank p b <? final_rank p a)%Z ||
+  ((final_rank p a =? final_rank p b)%Z && (final_seq p a <? final_seq p b)).
+
+Definition live (p : big_params) (i : N) : bool := (i <? bn p) && negb (removed p i).
+
+Fixpoint count_live (p : big_params) (fuel : nat) (i : N) : N :=
+  match fuel with
+  | O => 0
+  | S f => (if live p i then 1 else 0) + count_live p f (i + 1)
+  end.
+
+Fixpoint chain_ok (p : big_params) (l : list N) : bool :=
+  match l with
+  | [] => true
+  | a :: r => live p a && match r with [] => true | b :: _ => before p a b end && chain_ok p r
+  end.
+
+Definition big_ok (p : big_params) (o : big_obs) : bool :=
+  let nl := count_live p (N.to_nat (bn p)) 0 in
+  (o_len o =? nl) && (N.of_nat (length (o_pops o)) =? nl) && chain_ok p (o_pops o) && o_end o.
